@@ -6,7 +6,9 @@
      SECoPError.__eq__ / format / secop_error                          frappy/errors.py
    Values are pyval, datatype conversion is the C01 model (dt_call / dt_validate).
    Sequential big step [step]; concurrent small step [cstep] whose atomic steps end at the synchronisation
-   points of the implementation run under harness/dsched.py.  No proofs here. *)
+   points of the implementation run under harness/dsched.py: driver threads (read_/write_/assignment/announceUpdate),
+   connection threads (Dispatcher.handle_activate / handle_deactivate / remove_connection) with a dynamic
+   subscription table.  No proofs here. *)
 From Coq Require Import ZArith NArith Bool List Arith.
 Import ListNotations.
 Require Import FV.Base.Util FV.Base.F64 FV.Base.PyVal FV.C01.Model.
@@ -175,12 +177,13 @@ Inductive payload := PVal (v : pyval) | PErr (name text : str).
 Record msg := { m_p : nat; m_pay : payload; m_ts : Z }.   (* update / error_update for parameter m_p; m_ts 0 = no 't' *)
 
 (* subscription of a connection: activate / activate <module> / activate <module>:<exported name> *)
-Inductive scope := SAll | SMod (m : nat) | SPar (p : nat).
+Inductive scope := SAll | SMod (m : nat) | SPar (p : nat) | SNone.   (* SNone: connection not activated *)
 
 Record config := {
   g_tab : etable;
   g_params : list pcfg;
-  g_conns : list scope;        (* connection k has scope nth k *)
+  g_conns : list scope;        (* connection k has scope nth k (when the history starts) *)
+  g_nmods : nat;               (* number of modules of the node (secnode.export) *)
 }.
 
 Definition exported (P : pcfg) : bool := match p_export P with Some _ => true | None => false end.
@@ -189,7 +192,7 @@ Definition covers (G : config) (sc : scope) (p : nat) : bool :=
   | None => false
   | Some P =>
       exported P &&
-      match sc with SAll => true | SMod m => Nat.eqb m (p_mod P) | SPar q => Nat.eqb q p end
+      match sc with SAll => true | SMod m => Nat.eqb m (p_mod P) | SPar q => Nat.eqb q p | SNone => false end
   end.
 Fixpoint listeners_from (G : config) (p : nat) (k : nat) (cs : list scope) : list nat :=
   match cs with
@@ -308,16 +311,20 @@ Fixpoint set_nth {A} (n : nat) (x : A) (l : list A) : list A :=
   | y :: r, S n' => y :: set_nth n' x r
   end.
 
-(* announceUpdate from "timestamp = timestamp or time.time()" to the broadcast, for one prepared input *)
-Definition apply_funnel (G : config) (P : pcfg) (o : op) (inp : finput) (ts : Z) (s : state) : state * list nat * option msg :=
+(* announceUpdate from the store to the broadcast, for one prepared input; ks = the connections broadcast_event
+   will send to *)
+Definition apply_funnel_with (G : config) (ks : list nat) (P : pcfg) (o : op) (inp : finput) (ts : Z) (s : state)
+  : state * list nat * option msg :=
   match nth_error (s_cells s) (o_p o) with
   | None => (s, [], None)
   | Some c =>
       let '(c', emit) := funnel P c inp (o_cx o) ts in
       let s' := {| s_cells := set_nth (o_p o) c' (s_cells s); s_heap := s_heap s; s_now := s_now s; s_log := s_log s |} in
-      if emit && exported P then (s', listeners G (o_p o), Some (render G (s_heap s) P (o_p o) c'))
+      if emit && exported P then (s', ks, Some (render G (s_heap s) P (o_p o) c'))
       else (s', [], None)
   end.
+Definition apply_funnel (G : config) (P : pcfg) (o : op) (inp : finput) (ts : Z) (s : state) : state * list nat * option msg :=
+  apply_funnel_with G (listeners G (o_p o)) P o inp ts s.
 
 Definition deliver (s : state) (k : nat) (m : msg) : state :=
   {| s_cells := s_cells s; s_heap := s_heap s; s_now := s_now s; s_log := (k, m) :: s_log s |}.
@@ -327,6 +334,19 @@ Definition set_heap (s : state) (h : heap) : state :=
 Definition tick (s : state) (d : Z) : state :=
   {| s_cells := s_cells s; s_heap := s_heap s; s_now := (s_now s + d)%Z; s_log := s_log s |}.
 
+(* the announce region: "timestamp = timestamp or time.time()", the funnel, and who is to be told what *)
+Definition ann_region (G : config) (ks : list nat) (P : pcfg) (o : op) (inp : finput) (s : state)
+  : state * list nat * option msg :=
+  let s2 := if Z.eqb (explicit_ts o) 0 then tick s (o_dt o) else s in
+  let ts := if Z.eqb (explicit_ts o) 0 then s_now s2 else explicit_ts o in
+  apply_funnel_with G ks P o inp ts s2.
+(* ... executed atomically: every listener is served at once *)
+Definition ann_atomic (G : config) (ks : list nat) (P : pcfg) (o : op) (inp : finput) (s : state) : state :=
+  match ann_region G ks P o inp s with
+  | (s3, ks', Some m) => deliver_all s3 ks' m
+  | (s3, _, None) => s3
+  end.
+
 Definition step (G : config) (s : state) (o : op) : state :=
   match nth_error (g_params G) (o_p o) with
   | None => s
@@ -335,13 +355,7 @@ Definition step (G : config) (s : state) (o : op) : state :=
       let s1 := set_heap s h1 in
       match fi with
       | None => s1
-      | Some inp =>
-          let s2 := if Z.eqb (explicit_ts o) 0 then tick s1 (o_dt o) else s1 in
-          let ts := if Z.eqb (explicit_ts o) 0 then s_now s2 else explicit_ts o in
-          match apply_funnel G P o inp ts s2 with
-          | (s3, ks, Some m) => deliver_all s3 ks m
-          | (s3, _, None) => s3
-          end
+      | Some inp => ann_atomic G (listeners G (o_p o)) P o inp s1
       end
   end.
 
@@ -377,6 +391,63 @@ Fixpoint last_msg (p : nat) (ms : list msg) (acc : option msg) : option msg :=
 Definition replay (p : nat) (ms : list msg) : option msg := last_msg p ms None.
 
 (* ------------------------------------------------------------------ concurrent model *)
+(* ---- dynamic subscriptions: Dispatcher._active_connections / _subscriptions.
+   Connection k is registered for the scopes [nth k]; SAll = member of _active_connections, SMod m = member of
+   _subscriptions[<module>], SPar p = member of _subscriptions[<module>:<parameter>] *)
+Definition subs := list (list scope).
+Definition sub_covers (G : config) (scs : list scope) (p : nat) : bool := existsb (fun sc => covers G sc p) scs.
+(* broadcast_event: the union of the three sets; the fake connections hash to their index, so a set is iterated
+   in index order *)
+Fixpoint dlisteners_from (G : config) (p : nat) (k : nat) (ss : subs) : list nat :=
+  match ss with
+  | [] => []
+  | scs :: r => if sub_covers G scs p then k :: dlisteners_from G p (S k) r else dlisteners_from G p (S k) r
+  end.
+Definition dlisteners (G : config) (ss : subs) (p : nat) : list nat := dlisteners_from G p 0 ss.
+Definition subs0 (G : config) : subs := map (fun sc => [sc]) (g_conns G).
+
+Definition in_mod (G : config) (m p : nat) : bool :=
+  match nth_error (g_params G) p with Some P => Nat.eqb (p_mod P) m | None => false end.
+
+(* what a connection thread does *)
+Inductive aop :=
+| AActivate (sc : scope)          (* handle_activate(conn, specifier) *)
+| ADeactivate (sc : scope)        (* handle_deactivate(conn, specifier) *)
+| AReset.                         (* remove_connection / reset_connection *)
+Inductive job := JOp (o : op) | JConn (k : nat) (a : aop).
+
+Definition sub_add (ss : subs) (k : nat) (sc : scope) : subs :=
+  match nth_error ss k with Some l => set_nth k (sc :: l) ss | None => ss end.
+(* handle_deactivate: no specifier -> _active_connections.discard only; a module -> its set and all the
+   <module>:<parameter> sets; a parameter -> that set.  Does registration sc survive? *)
+Definition unsub_keep (G : config) (a sc : scope) : bool :=
+  match a, sc with
+  | SAll, SAll => false
+  | SMod m, SMod m' => negb (Nat.eqb m m')
+  | SMod m, SPar p => negb (in_mod G m p)
+  | SPar p, SPar q => negb (Nat.eqb p q)
+  | _, _ => true
+  end.
+Definition sub_del (G : config) (ss : subs) (k : nat) (a : aop) : subs :=
+  match nth_error ss k with
+  | None => ss
+  | Some l =>
+      match a with
+      | ADeactivate sc => set_nth k (filter (unsub_keep G sc) l) ss
+      | AReset => set_nth k [] ss
+      | AActivate _ => ss
+      end
+  end.
+
+(* the shapes of the source the concurrent behaviour rests on (each is a translator fact) *)
+Record flags := {
+  f_locked : bool;        (* the body of announceUpdate is enclosed by "with self.updateLock" *)
+  f_reg_first : bool;     (* handle_activate registers the connection before the loop sending the initial values *)
+  f_snap_locked : bool;   (* ... and builds + sends the values of one module inside "with moduleobj.updateLock" *)
+  f_private : bool;       (* broadcast_event iterates over a private copy of the listener sets *)
+}.
+Definition flags_ok : flags := {| f_locked := true; f_reg_first := true; f_snap_locked := true; f_private := true |}.
+
 (* where a thread is parked = the synchronisation point it executes next *)
 Inductive park :=
 | KStart                                     (* thread start *)
@@ -385,26 +456,40 @@ Inductive park :=
 | KAcqU (inp : finput)                       (* acquire updateLock (announceUpdate) *)
 | KClock (inp : finput)                      (* time.time() inside announceUpdate *)
 | KSend (m : msg) (rest : list nat)          (* connection.send_reply for the next listener *)
+| KSendL (m : msg) (k : nat) (n0 : nat)      (* the same when the live sets are iterated: next recipient, size of the
+                                                set when the iteration began *)
+| KConn                                      (* before handle_deactivate / remove_connection (the harness yields) *)
+| KReg                                       (* registration: _active_connections.add / subscribe *)
+| KAcqS (ms : list nat)                      (* handle_activate: acquire updateLock of module hd ms; modules to do *)
+| KSnap (m : msg) (ps : list nat) (ms : list nat)   (* send_reply of an initial value; further parameters of the
+                                                       module in progress; further modules *)
 | KEnd.
 
-Record thread := { t_ops : list op; t_pk : park }.     (* head of t_ops = the op in progress *)
+Record thread := { t_ops : list job; t_pk : park }.     (* head of t_ops = the job in progress *)
 Record cstate := {
   cs_st : state;
+  cs_subs : subs;
   cs_thr : list thread;
   cs_ok : bool;                 (* false: the schedule named a thread that was not enabled / did not exist *)
 }.
 
 Definition op_mod (G : config) (o : op) : option nat := option_map p_mod (nth_error (g_params G) (o_p o)).
+Definition msg_mod (G : config) (m : msg) : option nat := option_map p_mod (nth_error (g_params G) (m_p m)).
 Definition cur_mod (G : config) (t : thread) : option nat :=
-  match t_ops t with o :: _ => op_mod G o | [] => None end.
+  match t_ops t with JOp o :: _ => op_mod G o | _ => None end.
 Definition opt_nat_eqb (a b : option nat) : bool :=
   match a, b with Some x, Some y => Nat.eqb x y | _, _ => false end.
 
-Definition holds_U (G : config) (m : option nat) (t : thread) : bool :=
-  match t_pk t with KClock _ | KSend _ _ => opt_nat_eqb (cur_mod G t) m | _ => false end.
+(* the locks are derived from the park points *)
+Definition holds_U (G : config) (F : flags) (m : option nat) (t : thread) : bool :=
+  match t_pk t with
+  | KClock _ | KSend _ _ | KSendL _ _ _ => f_locked F && opt_nat_eqb (cur_mod G t) m
+  | KSnap msg _ _ => f_snap_locked F && opt_nat_eqb (msg_mod G msg) m
+  | _ => false
+  end.
 Definition holds_A (G : config) (m : option nat) (t : thread) : bool :=
   match t_pk t, t_ops t with
-  | (KDrv | KAcqU _ | KClock _ | KSend _ _), o :: _ => needs_access o && opt_nat_eqb (op_mod G o) m
+  | (KDrv | KAcqU _ | KClock _ | KSend _ _ | KSendL _ _ _), JOp o :: _ => needs_access o && opt_nat_eqb (op_mod G o) m
   | _, _ => false
   end.
 (* does any thread other than number i satisfy f *)
@@ -414,37 +499,87 @@ Fixpoint other_has (f : thread -> bool) (i : nat) (k : nat) (ts : list thread) :
   | t :: r => (negb (Nat.eqb k i) && f t) || other_has f i (S k) r
   end.
 
-(* where a thread parks when it begins its next op *)
-Definition first_park (G : config) (ops : list op) : park :=
+(* handle_activate: the modules whose values are sent, and the parameters of one module *)
+Definition scope_mods (G : config) (sc : scope) : list nat :=
+  match sc with
+  | SAll => seq 0 (g_nmods G)
+  | SMod m => [m]
+  | SPar p => match nth_error (g_params G) p with Some P => [p_mod P] | None => [] end
+  | SNone => []
+  end.
+Definition snap_params (G : config) (sc : scope) (m : nat) : list nat :=
+  filter (fun p => covers G sc p && in_mod G m p) (seq 0 (length (g_params G))).
+
+(* where a thread parks when it begins its next job *)
+Definition first_park (G : config) (F : flags) (ops : list job) : park :=
   match ops with
   | [] => KEnd
-  | o :: _ =>
+  | JOp o :: _ =>
       if needs_access o then KAcqA
       else match nth_error (g_params G) (o_p o) with
            | None => KEnd
            | Some P => match snd (pre P [] o) with Some inp => KAcqU inp | None => KEnd end
            end
+  | JConn _ (AActivate sc) :: _ =>
+      if f_reg_first F then KReg else match scope_mods G sc with [] => KReg | ms => KAcqS ms end
+  | JConn _ _ :: _ => KConn
   end.
-Definition finish_op (G : config) (t : thread) : thread :=
-  {| t_ops := tl (t_ops t); t_pk := first_park G (tl (t_ops t)) |}.
+Definition finish_op (G : config) (F : flags) (t : thread) : thread :=
+  {| t_ops := tl (t_ops t); t_pk := first_park G F (tl (t_ops t)) |}.
 Definition park_at (t : thread) (k : park) : thread := {| t_ops := t_ops t; t_pk := k |}.
 
-(* announceUpdate body after the lock is taken and the time is known *)
-Definition do_funnel (G : config) (P : pcfg) (o : op) (inp : finput) (ts : Z) (s : state) (t : thread) : state * thread :=
-  match apply_funnel G P o inp ts s with
-  | (s', k :: ks, Some m) => (s', park_at t (KSend m (k :: ks)))
-  | (s', _, _) => (s', finish_op G t)
+(* what one step of a thread does to the shared state.  Two readings: [ceff] is what happens at this very step;
+   [aeff] is the reading in which a region is atomic -- everything it sends is delivered when it commits *)
+Inductive action :=
+| AHeap (P : pcfg) (o : op)                   (* wrapper prologue: bookkeeping of raising_methods *)
+| AFun (P : pcfg) (o : op) (inp : finput)     (* announce region commits: clock, funnel, store *)
+| ASend (k : nat) (m : msg)                   (* one send_reply of its fan-out *)
+| ASnap (k : nat) (P : pcfg) (p : nat)        (* make_update of an initial value *)
+| ASnapSend (k : nat) (m : msg)               (* its send_reply *)
+| AReg (k : nat) (sc : scope)
+| AUnreg (k : nat) (a : aop).
+
+Definition render_at (G : config) (st : state) (P : pcfg) (p : nat) : option msg :=
+  option_map (render G (s_heap st) P p) (nth_error (s_cells st) p).
+
+Definition ceff (G : config) (a : action) (x : state * subs) : state * subs :=
+  let '(st, ss) := x in
+  match a with
+  | AHeap P o => (set_heap st (fst (pre P (s_heap st) o)), ss)
+  | AFun P o inp => (fst (fst (ann_region G (dlisteners G ss (o_p o)) P o inp st)), ss)
+  | ASend k m | ASnapSend k m => (deliver st k m, ss)
+  | ASnap _ _ _ => (st, ss)
+  | AReg k sc => (st, sub_add ss k sc)
+  | AUnreg k a => (st, sub_del G ss k a)
+  end.
+Definition aeff (G : config) (a : action) (x : state * subs) : state * subs :=
+  let '(st, ss) := x in
+  match a with
+  | AHeap P o => (set_heap st (fst (pre P (s_heap st) o)), ss)
+  | AFun P o inp => (ann_atomic G (dlisteners G ss (o_p o)) P o inp st, ss)
+  | ASend _ _ | ASnapSend _ _ => (st, ss)
+  | ASnap k P p => (match render_at G st P p with Some m => deliver st k m | None => st end, ss)
+  | AReg k sc => (st, sub_add ss k sc)
+  | AUnreg k a => (st, sub_del G ss k a)
   end.
 
+(* announceUpdate body once the lock is taken: the region commits, the thread goes on to the first send_reply *)
+Definition do_funnel (G : config) (F : flags) (P : pcfg) (o : op) (inp : finput) (st : state) (ss : subs) (t : thread)
+  : list action * thread :=
+  ([AFun P o inp],
+   match ann_region G (dlisteners G ss (o_p o)) P o inp st with
+   | (_, k :: ks, Some m) => park_at t (if f_private F then KSend m (k :: ks) else KSendL m k (S (length ks)))
+   | _ => finish_op G F t
+   end).
+
 (* the wrapper from the call of the user method up to the next synchronisation point *)
-Definition drv_step (G : config) (st : state) (t : thread) (o : op) : state * thread :=
+Definition drv_step (G : config) (F : flags) (st : state) (t : thread) (o : op) : list action * thread :=
   match nth_error (g_params G) (o_p o) with
-  | None => (st, finish_op G t)
+  | None => ([], finish_op G F t)
   | Some P =>
-      let '(h1, fi) := pre P (s_heap st) o in
-      match fi with
-      | None => (set_heap st h1, finish_op G t)
-      | Some inp => (set_heap st h1, park_at t (KAcqU inp))
+      match snd (pre P (s_heap st) o) with
+      | None => ([AHeap P o], finish_op G F t)
+      | Some inp => ([AHeap P o], park_at t (KAcqU inp))
       end
   end.
 (* the fake driver yields when a user method is entered; a write_ wrapper without user method has no such point *)
@@ -459,49 +594,113 @@ Definition has_driver (G : config) (o : op) : bool :=
   | _ => true
   end.
 
-(* one step of thread i; [locked] = the body of announceUpdate is enclosed by "with self.updateLock" *)
-Definition tstep (G : config) (locked : bool) (st : state) (ts : list thread) (i : nat) (t : thread)
-  : option (state * thread) :=
+(* handle_activate after a send_reply / after the lock is taken: the next initial value of the module in progress,
+   else the next module, else the end (where the registration happens if it does not come first) *)
+Definition snap_next (G : config) (F : flags) (st : state) (t : thread) (k : nat) (ps ms : list nat)
+  : list action * thread :=
+  match ps with
+  | p :: ps' =>
+      match nth_error (g_params G) p with
+      | Some P => match render_at G st P p with
+                  | Some m => ([ASnap k P p], park_at t (KSnap m ps' ms))
+                  | None => ([], finish_op G F t)
+                  end
+      | None => ([], finish_op G F t)
+      end
+  | [] =>
+      match ms with
+      | _ :: _ => ([], park_at t (KAcqS ms))
+      | [] => ([], if f_reg_first F then finish_op G F t else park_at t KReg)
+      end
+  end.
+
+(* one step of thread i: the actions on the shared state and the thread afterwards; None = not enabled *)
+Definition tstep (G : config) (F : flags) (st : state) (ss : subs) (ts : list thread) (i : nat) (t : thread)
+  : option (list action * thread) :=
   match t_pk t, t_ops t with
-  | KStart, ops => Some (st, park_at t (first_park G ops))
-  | KAcqA, o :: _ =>
+  | KStart, ops => Some ([], park_at t (first_park G F ops))
+  | KAcqA, JOp o :: _ =>
       if other_has (holds_A G (op_mod G o)) i 0 ts then None
-      else if has_driver G o then Some (st, park_at t KDrv) else Some (drv_step G st t o)
-  | KDrv, o :: _ => Some (drv_step G st t o)
-  | KAcqU inp, o :: _ =>
-      if locked && other_has (holds_U G (op_mod G o)) i 0 ts then None
-      else if Z.eqb (explicit_ts o) 0 then Some (st, park_at t (KClock inp))
+      else if has_driver G o then Some ([], park_at t KDrv) else Some (drv_step G F st t o)
+  | KDrv, JOp o :: _ => Some (drv_step G F st t o)
+  | KAcqU inp, JOp o :: _ =>
+      if f_locked F && other_has (holds_U G F (op_mod G o)) i 0 ts then None
+      else if Z.eqb (explicit_ts o) 0 then Some ([], park_at t (KClock inp))
       else match nth_error (g_params G) (o_p o) with
-           | None => Some (st, finish_op G t)
-           | Some P => Some (do_funnel G P o inp (explicit_ts o) st t)
+           | None => Some ([], finish_op G F t)
+           | Some P => Some (do_funnel G F P o inp st ss t)
            end
-  | KClock inp, o :: _ =>
+  | KClock inp, JOp o :: _ =>
       match nth_error (g_params G) (o_p o) with
-      | None => Some (st, finish_op G t)
-      | Some P => let st1 := tick st (o_dt o) in Some (do_funnel G P o inp (s_now st1) st1 t)
+      | None => Some ([], finish_op G F t)
+      | Some P => Some (do_funnel G F P o inp st ss t)
       end
   | KSend m (k :: rest), _ =>
-      let st1 := deliver st k m in
       match rest with
-      | [] => Some (st1, finish_op G t)
-      | _ => Some (st1, park_at t (KSend m rest))
+      | [] => Some ([ASend k m], finish_op G F t)
+      | _ => Some ([ASend k m], park_at t (KSend m rest))
       end
+  | KSendL m k n0, _ =>
+      (* set iterator: RuntimeError when the size changed, else the next element in hash order *)
+      let cur := dlisteners G ss (m_p m) in
+      if Nat.eqb (length cur) n0
+      then match find (fun k' => Nat.ltb k k') cur with
+           | Some k' => Some ([ASend k m], park_at t (KSendL m k' n0))
+           | None => Some ([ASend k m], finish_op G F t)
+           end
+      else Some ([ASend k m], finish_op G F t)
+  | KConn, JConn k a :: _ => Some ([AUnreg k a], finish_op G F t)
+  | KReg, JConn k (AActivate sc) :: _ =>
+      if f_reg_first F
+      then match scope_mods G sc with
+           | [] => Some ([AReg k sc], finish_op G F t)
+           | ms => Some ([AReg k sc], park_at t (KAcqS ms))
+           end
+      else Some ([AReg k sc], finish_op G F t)
+  | KAcqS (m :: ms), JConn k (AActivate sc) :: _ =>
+      if f_snap_locked F && other_has (holds_U G F (Some m)) i 0 ts then None
+      else Some (snap_next G F st t k (snap_params G sc m) ms)
+  | KSnap m ps ms, JConn k (AActivate _) :: _ =>
+      let '(acts, t') := snap_next G F (deliver st k m) t k ps ms in Some (ASnapSend k m :: acts, t')
   | _, _ => None
   end.
 
-Definition cstep (G : config) (locked : bool) (s : cstate) (i : nat) : cstate :=
+Definition bad (s : cstate) : cstate := {| cs_st := cs_st s; cs_subs := cs_subs s; cs_thr := cs_thr s; cs_ok := false |}.
+Definition cstep (G : config) (F : flags) (s : cstate) (i : nat) : cstate :=
   match nth_error (cs_thr s) i with
-  | None => {| cs_st := cs_st s; cs_thr := cs_thr s; cs_ok := false |}
+  | None => bad s
   | Some t =>
-      match tstep G locked (cs_st s) (cs_thr s) i t with
-      | None => {| cs_st := cs_st s; cs_thr := cs_thr s; cs_ok := false |}
-      | Some (st', t') => {| cs_st := st'; cs_thr := set_nth i t' (cs_thr s); cs_ok := cs_ok s |}
+      match tstep G F (cs_st s) (cs_subs s) (cs_thr s) i t with
+      | None => bad s
+      | Some (acts, t') =>
+          let x := fold_left (fun x a => ceff G a x) acts (cs_st s, cs_subs s) in
+          {| cs_st := fst x; cs_subs := snd x; cs_thr := set_nth i t' (cs_thr s); cs_ok := cs_ok s |}
       end
   end.
 
-Definition crun (G : config) (locked : bool) (s : cstate) (sched : list nat) : cstate :=
-  fold_left (cstep G locked) sched s.
-Definition cinit (s : state) (progs : list (list op)) : cstate :=
-  {| cs_st := s; cs_thr := map (fun ops => {| t_ops := ops; t_pk := KStart |}) progs; cs_ok := true |}.
+Definition crun (G : config) (F : flags) (s : cstate) (sched : list nat) : cstate :=
+  fold_left (cstep G F) sched s.
+Definition cinit (s : state) (ss : subs) (progs : list (list job)) : cstate :=
+  {| cs_st := s; cs_subs := ss; cs_thr := map (fun ops => {| t_ops := ops; t_pk := KStart |}) progs; cs_ok := true |}.
+(* every thread has finished *)
 Definition quiescent (s : cstate) : bool :=
   forallb (fun t => match t_pk t with KEnd => true | _ => false end) (cs_thr s).
+(* quiescent point: no thread is inside the body of announceUpdate or, registered, inside handle_activate *)
+Definition in_flight (t : thread) : bool :=
+  match t_pk t with KClock _ | KSend _ _ | KSendL _ _ _ | KAcqS _ | KSnap _ _ _ => true | _ => false end.
+Definition quiet (s : cstate) : bool := forallb (fun t => negb (in_flight t)) (cs_thr s).
+
+(* the committed actions of a run, in the order in which they were committed *)
+Definition cacts (G : config) (F : flags) (s : cstate) (i : nat) : list action :=
+  match nth_error (cs_thr s) i with
+  | None => []
+  | Some t => match tstep G F (cs_st s) (cs_subs s) (cs_thr s) i t with None => [] | Some (acts, _) => acts end
+  end.
+Fixpoint ctrace (G : config) (F : flags) (s : cstate) (sched : list nat) : list action :=
+  match sched with
+  | [] => []
+  | i :: r => cacts G F s i ++ ctrace G F (cstep G F s i) r
+  end.
+(* the sequential reading of that trace: regions are atomic *)
+Definition arun (G : config) (acts : list action) (x : state * subs) : state * subs :=
+  fold_left (fun x a => aeff G a x) acts x.
